@@ -93,6 +93,48 @@ CHECKS = {
             "requests must be answered in order. Environment answers: randint 0 / duplicate, conn.send raising.",
             "<= 2 open connections per session; contexts from 4 values; sequence length bound.",
             "DESIGN.md §3 C06"),
+    "C10": ("exploration",
+            "bounded-exhaustive enumeration of parser machines x sentences x every limit value/form x tails x chunkings, repeat counts, and "
+            "iterator operation sequences on the real automata; safety + equality-with-unlimited-parse oracle over an instrumented source",
+            "102 machine specs covering every state class of parser.py and every registered service machine (found by introspection) x "
+            "180 (214) valid sentences x every integer limit 0..len+2 given as constructor int, data path after a parsed length prefix, "
+            "callable, enclosing dfa (6 forms) x tails x chunkings (whole, byte-wise, split at the limit; thorough every 2-way split); "
+            "52 templates whose own length field takes every value 0..natural+2; dfa(repeat=n / '<path>') for n 0..4 with short, exact "
+            "and surplus input; every sequence of <= 6 (7) next/peek/push/chain operations on peeking/chaining against a list model. "
+            "Oracle: a terminal run consumed <= limit, the unread remainder is exactly input[sent:], sent == symbols pulled - pending, "
+            "limits >= len(w) give the unlimited result, a terminal repeat ran exactly n times.",
+            "Sentences are short and hand-written; at most two nested limits are placed by the harness; HART/PCCC parsers not imported.",
+            "DESIGN.md §3 C10"),
+    "C16": ("model_checking",
+            "explicit-state BFS over mapping-operation histories on the real dotdict (state = canonical nested structure rebuilt by history "
+            "replay); nested-dict reference model; full invariant set evaluated in every state",
+            "All histories of <= 3 (quick) / <= 4 (thorough) operations over 577 / 1292 operations (set by item/attribute/chain, setdefault, "
+            "del, pop +/- default, update, constructor x dotted, back-tracking, leading-dot, indexed and reserved paths x scalar / plain "
+            "dict / dotdict / list values) executed on the real class; in each of ~5k / ~75k states 100 / 219 lookup paths x 4 lookup "
+            "forms, all iteration forms (+depth), copy and deepcopy are compared with an independent nested-dict model.",
+            "Depth-bounded (the graph does not close); names {a,b,c,l}; statement-silent corners are accepted and listed in the evidence.",
+            "DESIGN.md §3 C16"),
+    "C17": ("exploration",
+            "bounded-exhaustive enumeration zone x offset transition x instant offset x sub-ms fraction x precision x rendering through the "
+            "real render/parse, independent zoneinfo/datetime oracle; exhaustive duration component products",
+            "All 599 tz-database zones x every UTC-offset transition found by a zoneinfo scan (2022-26 quick; 2015-30 and reduced 1970-2037 "
+            "thorough) x 19-27 instant offsets around each x 7 sub-millisecond fractions x precisions 0..6, rendered with zone name, "
+            "numeric offset and UTC and parsed back; oracle-built gap/fold wall times must be rejected; all ordered pairs of instants "
+            "0.1 ms apart for the comparison clause; 53k durations (component boundary product + every microsecond count < 20000); "
+            "offset format/parse.",
+            "zoneinfo/tzdata is the trusted oracle; abbreviation renderings and 25 hyphenated zone names are documented as unsupported "
+            "(counted, not judged); precision 0..2 is held to one unit of the last digit (rendering truncates there).",
+            "DESIGN.md §3 C17"),
+    "C20": ("exploration",
+            "bounded-exhaustive enumeration of value trees (shapes x leaf alphabets) through the real dump/parse against an independent "
+            "grammar encoder/decoder; exhaustive chunking x tail enumeration of the real tnet_machine and tnet_from",
+            "Every tree shape of container depth <= 3 with <= 2 children (26,683; thorough adds 3-child shapes) filled from a 22-leaf "
+            "alphabet (ints incl. 2^63, floats incl. inf, booleans, None, byte strings that look like length prefixes/colons/type tags, "
+            "multi-byte text) as full products up to 3-4 leaf positions and all 1- (2-) position deviations beyond; dump is byte-compared "
+            "with a from-the-grammar encoder, parse compared type-exactly. Every supported streaming payload x 20 tails x every 2-way "
+            "cut (thorough 3-way for short streams) and byte-wise feeding through tnet_machine and tnet_from (scripted recv).",
+            "Depth 3 is deviation-bounded, not a full product; machine payload types ^ ! ] } are unsupported by the machine.",
+            "DESIGN.md §3 C20"),
     "C15": ("exploration",
             "complete product personality x request route path x service on freshly configured real simulators (UCMM subclass and "
             "main() argument parsing), access-counting Attribute class; exhaustive route-path text grammar vs reference parser",
